@@ -474,7 +474,7 @@ def main(pid, tier, seed):
     rcopy = core.repo_copy('cli') if pid == 'C12' else None
     for k in range(n_rules):
         path = os.path.join(work, 'r%d' % k)
-        desc = sessrules.make(rng, path, with_m=True, m_last=(k % 3 == 2), omen_model=(3 if k % 3 == 1 else None))
+        desc = sessrules.make(rng, path, with_m=True, m_last=(k % 3 == 2), omen_model=(3 if k % 3 == 1 else None), zero_level=(k % 3 != 2))
         if k % 3 == 0:
             # a text file need not end with a newline: the last line of these tables is a line like any other
             for rel in (('Omen', 'omen_keyspace.txt'), ('Omen', 'pcfg_omen_prob.txt'), ('Grammar', 'grammar.txt')):
